@@ -32,6 +32,9 @@ enum Op {
     Signal(usize, usize, bool),
     /// notify a condition nobody waits on
     Lonely(bool),
+    /// notify (all = true) the condition object of flag c WITHOUT setting the flag: legal at
+    /// any time, waiters re-check their flag and wait again
+    Poke(usize, bool),
     /// moving collection: relocate all objects inside a real stop_the_world
     Relocate,
     /// safepoint poll
@@ -48,6 +51,17 @@ struct WaitqScenario {
     ncond: usize,
     /// threads[0] is the main thread
     threads: Vec<Vec<Op>>,
+    /// flag -> condition object; empty = identity. Several flags may share one condition
+    /// object (their signals then use notify_all), so that a condition is waited on and
+    /// notified again after earlier notifications
+    #[serde(default)]
+    cond_map: Vec<usize>,
+}
+
+impl WaitqScenario {
+    fn cond_obj(&self, c: usize) -> usize {
+        self.cond_map.get(c).copied().unwrap_or(c)
+    }
 }
 
 const P_BLOCKED_ON_MUTEX: usize = 0;
@@ -94,12 +108,21 @@ impl World {
     fn owner(&self, i: usize) -> &AtomicI64 {
         unsafe { &*((self.obj(i) + 16) as *const AtomicI64) }
     }
-    fn mutex_handle(&self, i: usize) -> Handle<ManagedMutex> {
-        Handle::from_address(Address::from_ptr(&self.slots[i] as *const AtomicUsize))
-    }
-    fn cond_handle(&self, i: usize) -> Handle<ManagedCondition> {
-        Handle::from_address(Address::from_ptr(&self.slots[i] as *const AtomicUsize))
-    }
+}
+
+// The natives of pkgs/std/thread.dora are called the way compiled code calls them: through
+// their C ABI with the raw handle (a pointer to the slot). Going through function pointers
+// keeps the harness independent of the handle's type parameter in the native's signature.
+fn raw(h: &AtomicUsize) -> usize {
+    h as *const AtomicUsize as usize
+}
+fn native1(f: *const (), handle: usize) {
+    let f: extern "C" fn(usize) = unsafe { std::mem::transmute(f) };
+    f(handle)
+}
+fn native2(f: *const (), handle: usize, value: i32) {
+    let f: extern "C" fn(usize, i32) = unsafe { std::mem::transmute(f) };
+    f(handle, value)
 }
 
 fn poll() {
@@ -130,7 +153,7 @@ fn lock_slow(w: &World, m: usize) {
         if transition_to_locked_contended(w, m) {
             w.stats().probe(P_BLOCKED_ON_MUTEX);
             // @native Mutex#wait
-            w.rt.wait_lists.block(w.mutex_handle(m), LOCKED_CONTENDED);
+            native2(dora_runtime::verif::mutex_wait as *const (), raw(&w.slots[m]), LOCKED_CONTENDED);
         }
         let previous = match w.word(m).compare_exchange(UNLOCKED, LOCKED_CONTENDED, Ordering::SeqCst, Ordering::SeqCst) {
             Ok(v) | Err(v) => v,
@@ -154,16 +177,16 @@ fn unlock_op(w: &World, m: usize, tid: i64) {
         assert_eq!(previous, LOCKED_CONTENDED);
         w.stats().probe(P_UNLOCK_SLOW);
         // @native Mutex#notify
-        w.rt.wait_lists.wakeup(w.mutex_handle(m).direct_ptr());
+        native1(dora_runtime::verif::mutex_notify as *const (), raw(&w.slots[m]));
     }
 }
 
 fn cond_wait(w: &World, c: usize, m: usize, tid: i64) {
     // enqueue(); mtx.unlock_op(); block(); mtx.lock_op();
-    w.rt.wait_lists.enqueue(w.cond_handle(c));
+    native1(dora_runtime::verif::condition_enqueue as *const (), raw(&w.slots[c]));
     unlock_op(w, m, tid);
     w.waiting_now.fetch_add(1, Ordering::Relaxed);
-    current_thread().block();
+    native1(dora_runtime::verif::condition_block_after_enqueue as *const (), raw(&w.slots[c]));
     w.waiting_now.fetch_sub(1, Ordering::Relaxed);
     lock_op(w, m, tid);
 }
@@ -173,7 +196,7 @@ fn notify_one(w: &World, c: usize) {
         return;
     }
     w.stats().probe(P_NOTIFY_SLOW);
-    w.rt.wait_lists.wakeup(w.cond_handle(c).direct_ptr());
+    native1(dora_runtime::verif::condition_wakeup_one as *const (), raw(&w.slots[c]));
 }
 
 fn notify_all(w: &World, c: usize) {
@@ -182,7 +205,7 @@ fn notify_all(w: &World, c: usize) {
     }
     w.word(c).store(0, Ordering::SeqCst);
     w.stats().probe(P_NOTIFY_SLOW);
-    w.rt.wait_lists.wakeup_all(w.cond_handle(c).direct_ptr());
+    native1(dora_runtime::verif::condition_wakeup_all as *const (), raw(&w.slots[c]));
 }
 
 // ---- the moving collection -------------------------------------------------------------
@@ -256,7 +279,7 @@ fn run_ops(w: &Arc<World>, me: usize) {
                 lock_op(w, m, tid);
                 while !w.flags[c].load(Ordering::Relaxed) {
                     poll();
-                    cond_wait(w, nm + c, m, tid);
+                    cond_wait(w, nm + w.scenario.cond_obj(c), m, tid);
                 }
                 unlock_op(w, m, tid);
             }
@@ -265,9 +288,16 @@ fn run_ops(w: &Arc<World>, me: usize) {
                 w.flags[c].store(true, Ordering::Relaxed);
                 unlock_op(w, m, tid);
                 if all {
-                    notify_all(w, nm + c);
+                    notify_all(w, nm + w.scenario.cond_obj(c));
                 } else {
-                    notify_one(w, nm + c);
+                    notify_one(w, nm + w.scenario.cond_obj(c));
+                }
+            }
+            Op::Poke(c, all) => {
+                if all {
+                    notify_all(w, nm + w.scenario.cond_obj(c));
+                } else {
+                    notify_one(w, nm + w.scenario.cond_obj(c));
                 }
             }
             Op::Lonely(all) => {
@@ -365,11 +395,19 @@ impl Scenario for WaitqScenario {
                     threads[0].push(Op::Relocate);
                 }
             }
-            return WaitqScenario { nmutex, ncond: nw, threads };
+            return WaitqScenario { nmutex, ncond: nw, threads, cond_map: Vec::new() };
         }
         let nthreads = rng.range(2, 4) as usize;
         let nmutex = rng.range(1, 3) as usize;
-        let ncond = rng.range(0, 2) as usize;
+        // a third of the scenarios: 2-4 flags share 1-2 condition objects
+        let shared = rng.chance(1, 3);
+        let ncond = if shared { rng.range(2, 4) as usize } else { rng.range(0, 2) as usize };
+        let cond_map: Vec<usize> = if shared {
+            let k = rng.range(1, 2);
+            (0..ncond).map(|_| rng.below(k) as usize).collect()
+        } else {
+            Vec::new()
+        };
         let mut threads: Vec<Vec<Op>> = vec![Vec::new(); nthreads];
         let heavy_reloc = rng.chance(1, 3);
         for t in 0..nthreads {
@@ -397,13 +435,23 @@ impl Scenario for WaitqScenario {
             if waiters.is_empty() {
                 waiters.push((signaller + 1) % nthreads);
             }
-            let all = waiters.len() > 1 || rng.chance(1, 2);
+            // waiters of different flags may sit on a shared condition object: only
+            // notify_all is guaranteed to reach the right one there
+            let all = shared || waiters.len() > 1 || rng.chance(1, 2);
             for &wt in &waiters {
                 let pos = rng.below(threads[wt].len() as u64 + 1) as usize;
                 threads[wt].insert(pos, Op::Wait(c, m));
             }
             let pos = rng.below(threads[signaller].len() as u64 + 1) as usize;
             threads[signaller].insert(pos, Op::Signal(c, m, all));
+        }
+        // extra notifications that set no flag
+        if ncond > 0 {
+            for _ in 0..rng.range(0, 3) {
+                let t = rng.below(nthreads as u64) as usize;
+                let pos = rng.below(threads[t].len() as u64 + 1) as usize;
+                threads[t].insert(pos, Op::Poke(rng.below(ncond as u64) as usize, rng.chance(1, 2)));
+            }
         }
         // A signaller must not be blocked (transitively) behind a wait that depends on it:
         // keep the dependency graph acyclic by ordering flags - a thread waits on flag c only
@@ -424,7 +472,7 @@ impl Scenario for WaitqScenario {
                 threads[parent].push(Op::Join(t));
             }
         }
-        WaitqScenario { nmutex, ncond, threads }
+        WaitqScenario { nmutex, ncond, threads, cond_map }
     }
 
     fn max_tasks(&self) -> u32 {
